@@ -13,7 +13,7 @@ REPO = os.environ.get("VERIF_REPO", "/repo")
 BUILD = os.path.join(VERIF, "build")
 CXX = os.environ.get("CXX", "g++")
 
-COMMON = ["-std=c++20", "-w", "-pthread"]
+COMMON = ["-std=c++20", "-w", "-pthread", "-DSIMRT_WRAP_MALLOC"]
 VARIANTS = {
     "plain": {"sut": ["-O1", "-fsanitize-coverage=trace-pc"], "rt": ["-O2"], "link": [], "defs": []},
     "sched": {"sut": ["-O1", "-fsanitize=thread", "-fsanitize-coverage=trace-pc"], "rt": ["-O2"], "link": [], "defs": []},
@@ -30,7 +30,7 @@ ENGINES = {
     "simA": {"sut": ["simA/core.cpp", "simA/ops_buf.cpp", "simA/ops_ss.cpp", "simA/ops_str_a.cpp", "simA/ops_str_b.cpp", "simA/run.cpp",
                      "simA/enum19.cpp", "simA/main.cpp"],
              "rt": ["simrt/heap.cpp", "simrt/clock_fatal.cpp"],
-             "link": ["-Wl,--wrap=abort", "-Wl,--wrap=fprintf"], "bin": "simA"},
+             "link": ["-Wl,--wrap=abort", "-Wl,--wrap=fprintf", "-Wl,--wrap=malloc", "-Wl,--wrap=calloc", "-Wl,--wrap=realloc", "-Wl,--wrap=free"], "bin": "simA"},
     "simB": {"sut": ["simB/ops.cpp", "simB/ops2.cpp", "simB/main.cpp"], "rt": [], "so": ["simB/rt.cpp", "simrt/heap.cpp", "simrt/clock_fatal.cpp"], "bin": "simB",
              "link": ["-rdynamic", "-ldl"] + ["-Wl,--wrap=" + s for s in
                       ["abort", "fprintf", "memcpy", "memmove", "memset", "memcmp", "memchr", "strlen", "wmemcpy", "wmemmove", "wmemset", "wmemcmp", "wmemchr", "wcslen",
@@ -39,9 +39,9 @@ ENGINES = {
                        "pthread_rwlock_rdlock", "pthread_rwlock_wrlock",
                        "setlocale", "localeconv", "strtok", "rand", "srand", "strerror", "gmtime", "localtime", "asctime", "ctime", "getenv", "setenv", "putenv", "unsetenv",
                        "mblen", "mbtowc", "wctomb", "mbstowcs", "wcstombs", "mbrtowc", "wcrtomb", "mbrlen", "mbsrtowcs", "wcsrtombs", "toupper", "tolower", "towupper", "towlower",
-                       "sprintf", "vsnprintf"]]},
+                       "sprintf", "vsnprintf", "malloc", "calloc", "realloc", "free"]]},
     "simC": {"sut": ["simC/simc.cpp", "simC/main.cpp"], "rt": ["simrt/heap.cpp", "simrt/clock_fatal.cpp"],
-             "link": ["-Wl,--wrap=abort", "-Wl,--wrap=fprintf"], "bin": "simC"},
+             "link": ["-Wl,--wrap=abort", "-Wl,--wrap=fprintf", "-Wl,--wrap=malloc", "-Wl,--wrap=calloc", "-Wl,--wrap=realloc", "-Wl,--wrap=free"], "bin": "simC"},
 }
 
 def tree_hash(paths):
@@ -94,7 +94,7 @@ def main():
         so_objs = []
         for src in eng.get("so", []):
             obj = os.path.join(out, "so_" + src.replace("/", "_") + ".o")
-            jobs.append(([CXX] + COMMON + ["-O2", "-fPIC", "-DSIMRT_NO_TRACE_PC"] + inc + ["-c", os.path.join(VERIF, src), "-o", obj], obj))
+            jobs.append(([CXX] + COMMON + ["-O2", "-fPIC", "-DSIMRT_NO_TRACE_PC", "-DSIMRT_SO"] + inc + ["-c", os.path.join(VERIF, src), "-o", obj], obj))
             so_objs.append(obj)
         def run(job):
             r = subprocess.run(job[0], stdout=subprocess.PIPE, stderr=subprocess.STDOUT, text=True)
